@@ -5,6 +5,7 @@
 # published under GPLv2 license
 
 from amoco.logger import Log
+from copy import copy as _copy
 
 logger = Log(__name__)
 logger.debug("loading module")
@@ -498,6 +499,8 @@ i_LDURSW = i_LDR
 def i_LSLV(i, fmap):
     fmap[pc] = fmap[pc] + i.length
     dst, op1, op2 = i.operands
+    # unsigned view of the operand (the shared register object is left untouched):
+    op1 = _copy(op1)
     op1.sf = False
     fmap[dst] = fmap(op1 << op2)
 
@@ -505,6 +508,8 @@ def i_LSLV(i, fmap):
 def i_LSRV(i, fmap):
     fmap[pc] = fmap[pc] + i.length
     dst, op1, op2 = i.operands
+    # unsigned view of the operand (the shared register object is left untouched):
+    op1 = _copy(op1)
     op1.sf = False
     fmap[dst] = fmap(op1 >> op2)
 
